@@ -272,6 +272,7 @@ def stripComponents (path : List Char) (count : Int) : List Char := stripLoop co
 structure ADoc where
   name : List Char
   content : Bytes
+  deriving DecidableEq, Repr
 
 /-- the `for { f, err := a.Next(); … add(f) }` loop of `archive.Index`; the builder is created by the first
     regular member (`once.Do`), so the state is `Option (documents added so far)` -/
